@@ -129,7 +129,7 @@ def build_document(doc, now, sign_key=None):
 class MdSim(object):
     def __init__(self, sc):
         self.sc = sc
-        self.world = World(sc["seed"])
+        self.world = World(sc["seed"], sc.get("tz"))
         self.violations = []
         self.history = []
         self.counters = {}
